@@ -14,7 +14,7 @@ SAMPLE_FAULTS = {
     'file_not_found': 'not found', 'too_few_events': 'lower than 400', 'gate_fraction': 'gate fraction', 'units': 'not recognized',
     'beads_without_curve': 'not available', 'channel_without_curve': 'no standard curve', 'other_instrument': 'Instruments for',
     'amplifier': 'Amplification type', 'voltage': 'Detector voltage', 'beads_failed': 'not available',
-    'gate_fraction_tiny': 'gate fraction', 'gate_fraction_above': 'gate fraction', 'units_near_miss': 'not recognized'}
+    'path_is_directory': 'not found', 'path_through_file': 'not found', 'gate_fraction_tiny': 'gate fraction', 'gate_fraction_above': 'gate fraction', 'units_near_miss': 'not recognized'}
 BEADS_FAULTS = {'file_not_found': 'not found', 'too_few_events': 'lower than 400', 'gate_fraction': 'gate fraction', 'unequal_mef': 'same number'}
 
 
@@ -59,6 +59,8 @@ class Setup:
         ex.write_fcs('small.fcs', 'FC001', n=120, seed=seed + 20)
         ex.write_fcs('volt.fcs', 'FC001', n=600, voltage=620, seed=seed + 21)
         ex.write_fcs('lin.fcs', 'FC001', n=600, voltage=450, log_fl=False, seed=seed + 22)
+        import os as _os
+        _os.makedirs(_os.path.join(ex.dir, 'subdir'), exist_ok=True)
         self.instruments = ex.instruments_table()
         rows = [excelgen.beads_row('B1', 'FC001', 'beads1.fcs', channels=('FL1', 'FL2'), clustering=('FL1',)),
                 excelgen.beads_row('B1b', 'FC001', 'beads1.fcs', channels=('FL1', 'FL2'), clustering=('FL1',),
@@ -84,6 +86,10 @@ class Setup:
             return R(sid, 'FC001', 'nope.fcs', u, 'B1')
         if kind == 'too_few_events':
             return R(sid, 'FC001', 'small.fcs', u, 'B1')
+        if kind == 'path_is_directory':
+            return R(sid, 'FC001', 'subdir', u, 'B1')                  # names an existing directory
+        if kind == 'path_through_file':
+            return R(sid, 'FC001', 's0.fcs/inner.fcs', u, 'B1')        # runs through a regular file
         if kind == 'gate_fraction':
             return R(sid, 'FC001', 's0.fcs', u, 'B1', gate_fraction=1.5)
         if kind == 'units':
@@ -144,6 +150,9 @@ class Prop(common.PropertyCheck):
         # the same table analysed twice: rows that were healthy the first time fail the second time
         for f in (['file_not_found', 'gate_fraction'], ['units']):
             yield {'k': 'twice', 'second': f}
+        # floating-point samples with non-positive events (notes about geometric statistics) after / between failing rows
+        for order in (['fail', 'neg', 'pos', 'neg'], ['neg', 'fail', 'fail', 'neg', 'pos']):
+            yield {'k': 'notes', 'order': order}
         order = list(kinds)
         rng.shuffle(order)
         nsingle = len(order) if self.tier == 'thorough' else len(order)
@@ -212,6 +221,28 @@ class Prop(common.PropertyCheck):
                     out['kinds'].append('fault:' + str(v) if isinstance(v, FlowCal.excel_ui.ExcelUIException) else 'ok')
                 out['g_same'] = fpm.sample_fp(bs['G1'])['array'] == fpm.sample_fp(bs['G2'])['array']
                 return out
+            if case['k'] == 'notes':
+                ex2 = excelgen.Experiment(4321, datatype='F', instruments=1)
+                try:
+                    ex2.write_fcs('neg.fcs', 'FC001', n=650, seed=31, nonneg=False)
+                    ex2.write_fcs('pos.fcs', 'FC001', n=650, seed=32, nonneg=True)
+                    rows = []
+                    for i, kind in enumerate(case['order']):
+                        fn = {'fail': 'nope.fcs', 'neg': 'neg.fcs', 'pos': 'pos.fcs'}[kind]
+                        rows.append(excelgen.sample_row('R%d' % i, 'FC001', fn, {'FL1': 'a.u.', 'FL2': 'RFI'}, None))
+                    st = excelgen.table(rows, columns=['Instrument ID', 'Beads ID', 'File Path', 'Gate Fraction', 'FL1 Units', 'FL2 Units'])
+                    with warnings.catch_warnings():
+                        warnings.simplefilter('ignore')
+                        res = FlowCal.excel_ui.process_samples_table(st, ex2.instruments_table(), base_dir=ex2.dir)
+                        FlowCal.excel_ui.add_samples_stats(st, res)
+                    out = {'rows': []}
+                    for rid, kind in zip(st.index, case['order']):
+                        v = res[rid]
+                        nonpos = [] if isinstance(v, Exception) else [c for c in ('FL1', 'FL2') if bool(np.any(np.asarray(v[:, c]) <= 0))]
+                        out['rows'].append({'id': rid, 'kind': kind, 'note': str(st.loc[rid, 'Analysis Notes']), 'fault': isinstance(v, Exception), 'nonpos': nonpos})
+                    return out
+                finally:
+                    ex2.cleanup()
             if case['k'] == 'twice':
                 rows = [s.row('R%d' % i, 'ok', healthy_idx=i % 3) for i in range(3)]
                 st, res = s.process(rows)
@@ -301,6 +332,17 @@ class Prop(common.PropertyCheck):
             return 'the batch aborted with %s for rows %s' % (impl['aborted'], case.get('rows', case['k']))
         if case['k'] == 'empty':
             return None if impl['empty'] else 'an empty table did not yield an empty result'
+        if case['k'] == 'notes':
+            for r in impl['rows']:
+                if (r['kind'] == 'fail') != r['fault']:
+                    return 'row %s (%s): %s' % (r['id'], r['kind'], 'not reported as failing' if r['kind'] == 'fail' else 'reported an error: ' + r['note'][:60])
+                mentioned = [c for c in ('FL1', 'FL2') if ('channel %s calculated on positive events' % c) in r['note']]
+                if r['fault']:
+                    if not r['note'].startswith('ERROR:') or mentioned:
+                        return 'failing row %s carries the note %r (text that belongs to another row)' % (r['id'], r['note'][:120])
+                elif mentioned != r['nonpos'] or r['note'].startswith('ERROR'):
+                    return 'row %s has non-positive events in %s but its note mentions %s: %r' % (r['id'], r['nonpos'], mentioned, r['note'][:120])
+            return None
         if case['k'] == 'twice':
             if not impl['first_ok']:
                 return 'first analysis of a healthy table reported errors'
